@@ -817,12 +817,14 @@ type verifC15Rt struct {
 	obs          []verifC15Obs
 	acceptSeen   bool
 	acceptHeight int32
-	term         string // "", "S", "F" after acceptance
-	termAt       int64
-	termClass    string // "/replay-precheck:<outcome>" when the fail is of the KF-C15-1 class
-	batchPending bool
-	notified     int
-	key          invpkg.CircuitKey
+	// accept verdict not yet recorded (hodl resolution observed first)
+	acceptHeightUnknown bool
+	term                string // "", "S", "F" after acceptance
+	termAt              int64
+	termClass           string // "/replay-precheck:<outcome>" when the fail is of the KF-C15-1 class
+	batchPending        bool
+	notified            int
+	key                 invpkg.CircuitKey
 }
 
 type verifC15SnapHtlc struct {
@@ -927,8 +929,14 @@ func (r *verifC15Run) addRef(ref *verifC15Ref) *verifC15Ref {
 // addresses: AMP htlcs address by payment address, all others by hash.
 func (r *verifC15Run) targetRef(h *verifC15Htlc) *verifC15Ref {
 	if h.Style == "amp" {
+		// An AMP htlc addresses by payment address only: a universe
+		// invoice that really is in the store under that address, else
+		// (AcceptAMP) a spontaneous invoice that lnd creates under it.
 		for j, v := range r.in.Invs {
-			if v.Addr == h.Addr && v.Addr != (verifC15H{}) {
+			if v.Addr != h.Addr || v.Addr == (verifC15H{}) {
+				continue
+			}
+			if v.Kind == "ampspont" || r.added[j] {
 				return r.ref(fmt.Sprintf("inv%d", j))
 			}
 		}
@@ -993,6 +1001,17 @@ func (r *verifC15Run) observe(id int, kind, src, detail string, res invpkg.HtlcR
 	// an htlc that was recorded (accepted or settled) before, at a height
 	// where expiry < height + FinalCltvRejectDelta (the spontaneous-payment
 	// pre-check that runs before replay detection).
+	// A resolution on the hodl channel exists only for an htlc the registry
+	// had accepted. With concurrent notifiers it can be observed before the
+	// notifier goroutine has recorded the accept verdict of its own call.
+	if src == "hodl" && !rt.acceptSeen && (kind == "S" || kind == "F") {
+		rt.acceptSeen = true
+		rt.acceptHeightUnknown = true
+	}
+	if src == "direct" && rt.acceptHeightUnknown && (kind == "A" || kind == "S") {
+		rt.acceptHeight = height
+		rt.acceptHeightUnknown = false
+	}
 	precheck := ""
 	if kind == "F" && src == "direct" && isReplay && rt.acceptSeen &&
 		(detail == "invalid_keysend_parameters" || detail == "invalid_amp_parameters") &&
@@ -1100,14 +1119,6 @@ func (r *verifC15Run) lookup(ref *verifC15Ref) *verifC15Snap {
 		inv, err = r.reg.LookupInvoiceByRef(ctx, invpkg.InvoiceRefByAddr(ref.addr))
 	} else {
 		inv, err = r.reg.LookupInvoice(ctx, lntypes.Hash(ref.hash))
-		// A universe invoice that was not added (yet) may exist as a
-		// spontaneous AMP invoice under its payment address.
-		if err != nil && ref.addr != (verifC15H{}) && ref.inv != nil && !r.isAdded(ref.invIdx) {
-			inv2, err2 := r.reg.LookupInvoiceByRef(ctx, invpkg.InvoiceRefByAddr(ref.addr))
-			if err2 == nil {
-				inv, err = inv2, nil
-			}
-		}
 	}
 	s := &verifC15Snap{}
 	if err != nil {
@@ -2135,7 +2146,7 @@ func TestVerifC15Conc(t *testing.T) {
 	verifC15FastTmp()
 	defer verifC15Finish(vc)
 
-	total := vc.N(600, 12000)
+	total := vc.N(600, 30000)
 	for i := 0; i < total; i++ {
 		if !vc.Mine(i) {
 			continue
